@@ -552,6 +552,12 @@ func (in *Interp) invoke(fr *frame, c *ssa.CallCommon, fv Value, args []Value) V
 		if m, ok := models[key]; ok {
 			return m(in, nil, append([]Value{recv.V}, args[1:]...))
 		}
+		if g := ghostOf(recv); g != nil {
+			if gm, ok := ghostMethods[ghostKind(g)+"."+c.Method.Name()]; ok {
+				return gm(in, g, args[1:])
+			}
+			in.end("unmodelled", "UNMODELLED method %s on model object %s at %s", c.Method.Name(), ghostKind(g), in.where())
+		}
 		if op, ok := recv.V.(*Opaque); ok && op != nil {
 			return in.opaqueMethod(recv, c.Method, args[1:])
 		}
